@@ -236,16 +236,16 @@ func cpFixed() []Spec {
 	one := func(h int) []int { return []int{h} }
 	specs := []Spec{
 		// Fresh stores, file 1..120, one checkpoint at 50.
-		mk(0, 1, 120, 0, one(50), nil, one(50), nil),              // wrong, no block checkpoints: must fail
-		mk(0, 1, 120, 0, one(50), nil, nil, nil),                  // right: imports
-		mk(0, 1, 120, 0, one(50), nil, one(50), []int{30, 100}),   // wrong, with block checkpoints
-		mk(0, 1, 120, 0, one(50), nil, nil, []int{30, 100}),       // right, with block checkpoints
-		mk(60, 41, 80, 7, one(50), nil, one(50), nil),             // wrong in the middle of the overlap (never sampled)
-		mk(60, 61, 60, 1, one(120), nil, one(120), nil),           // batch size 1, wrong at the file's last height
+		mk(0, 1, 120, 0, one(50), nil, one(50), nil),                     // wrong, no block checkpoints: must fail
+		mk(0, 1, 120, 0, one(50), nil, nil, nil),                         // right: imports
+		mk(0, 1, 120, 0, one(50), nil, one(50), []int{30, 100}),          // wrong, with block checkpoints
+		mk(0, 1, 120, 0, one(50), nil, nil, []int{30, 100}),              // right, with block checkpoints
+		mk(60, 41, 80, 7, one(50), nil, one(50), nil),                    // wrong in the middle of the overlap (never sampled)
+		mk(60, 61, 60, 1, one(120), nil, one(120), nil),                  // batch size 1, wrong at the file's last height
 		mk(9, 10, 31, 1, []int{9, 41, 200}, []int{9, 41, 200}, nil, nil), // checkpoints just outside the file: no concern of the import
-		mk(0, 1, 120, 16, []int{17, 113}, nil, one(113), nil),     // right at the first of batch 2, wrong in the last batch
-		mk(60, 1, 120, 0, one(30), one(30), nil, []int{60}),       // stores and file agree, both contradict the checkpoint
-		mk(0, 0, 101, 10, one(100), nil, one(100), nil),           // file from genesis, wrong at its last height
+		mk(0, 1, 120, 16, []int{17, 113}, nil, one(113), nil),            // right at the first of batch 2, wrong in the last batch
+		mk(60, 1, 120, 0, one(30), one(30), nil, []int{60}),              // stores and file agree, both contradict the checkpoint
+		mk(0, 0, 101, 10, one(100), nil, one(100), nil),                  // file from genesis, wrong at its last height
 	}
 	specs[9].Preset = 1
 	return specs
